@@ -25,8 +25,48 @@ type fieldDomain struct {
 }
 
 type fieldOrigin struct {
-	t *types.Named
-	f int
+	t      *types.Named
+	f      int
+	stored bool // only values that are stored into a container (not by-value temporaries)
+}
+
+// fieldDomainFor: the domain that applies to a term key. A key that denotes an element of a stored
+// sequence (x.items[i].f) cannot hold the values the code only ever puts into by-value temporaries
+// (a sentinel struct literal handed to a comparator).
+func (c *aeCtx) fieldDomainFor(key string, o fieldOrigin) *fieldDomain {
+	if strings.Contains(key, "[") {
+		o.stored = true
+	}
+	return c.fieldDomain(o)
+}
+
+// byValueTemp: the struct written by this store lives in a non-escaping local that is only read
+// as a whole value to be passed to calls
+func byValueTemp(fa *ssa.FieldAddr) bool {
+	al, ok := fa.X.(*ssa.Alloc)
+	if !ok || al.Heap {
+		return false
+	}
+	for _, ref := range *al.Referrers() {
+		switch x := ref.(type) {
+		case *ssa.FieldAddr:
+			for _, rr := range *x.Referrers() {
+				if st, ok := rr.(*ssa.Store); !ok || st.Addr != x {
+					return false
+				}
+			}
+		case *ssa.UnOp:
+			for _, rr := range *x.Referrers() {
+				if _, ok := rr.(*ssa.Call); !ok {
+					return false
+				}
+			}
+		case *ssa.DebugRef:
+		default:
+			return false
+		}
+	}
+	return true
 }
 
 func (c *aeCtx) fieldDomain(o fieldOrigin) *fieldDomain {
@@ -62,6 +102,9 @@ func (c *aeCtx) fieldDomain(o fieldOrigin) *fieldDomain {
 				}
 				pt, ok := fa.X.Type().Underlying().(*types.Pointer)
 				if !ok || !types.Identical(pt.Elem(), o.t) {
+					continue
+				}
+				if o.stored && byValueTemp(fa) {
 					continue
 				}
 				// only string-typed payloads matter for an interface field
@@ -188,6 +231,9 @@ func (c *aeCtx) valueDomain(v ssa.Value, depth int) *fieldDomain {
 		}
 		lang, finite := groupLanguage(ri.Re, int(k))
 		if !finite {
+			if int(k) < len(ri.GroupMust) && ri.GroupMust[k] && ri.GroupMin[k] >= 1 {
+				return &fieldDomain{excluded: []string{""}} // a mandatory, non-empty group
+			}
 			return nil
 		}
 		m := map[string]bool{"": true} // a group that does not participate yields ""
